@@ -1,8 +1,13 @@
+import PallasVerif.Model.ScriptData
 /-
   Model of `pallas-txbuilder`: the `StagingTransaction` builder methods
   (`src/transaction/model.rs`) and `BuildConway::build_conway_raw` + `Output::build_babbage_raw`
   (`src/conway.rs`), as the code stands after the three `fix:` commits of C40 (zero quantities
-  dropped, staged inputs deduplicated, missing ex-units reported as an error).
+  dropped, staged inputs deduplicated, missing ex-units reported as an error) and after
+  `fix: txbuilder takes the script integrity hash over the witness set it emits (none without
+  redeemers and datums)`: `script_data_hash = language_views.and_then(|lv|
+  ScriptData::build_for(&witness_set, &Some(lv)).map(hash))`, computed here with C08's model of
+  `ScriptData` (`Model/ScriptData.lean`) and `Model/Blake2b.lean`.
 
   Conventions.
   * `Hash<32>` / `Hash<28>` values are `Nat`s: the big-endian value of the fixed-width byte string.
@@ -373,7 +378,7 @@ structure BuiltTx where
   collateralReturn : Option BuiltOutput
   refInputs : List Inp
   /-- `script_data_hash` is present -/
-  scriptDataHash : Bool
+  scriptDataHash : Option Bytes
   /-- `auxiliary_data_hash` is present -/
   auxDataHash : Bool
   /-- witness set: scripts by language (0 native .. 3 Plutus V3), datums, redeemers -/
@@ -382,6 +387,37 @@ structure BuiltTx where
   redeemers : List BuiltRedeemer
   aux : Option Bytes
   deriving Repr
+
+/-! ### `script_data_hash` -/
+
+def toU8 (b : Bytes) : List UInt8 := b.map UInt8.ofNat
+
+/-- `Redeemers::List(redeemers)` as the derived encoders write it: an array of
+    `[tag, index, data, [mem, steps]]`; `data` is the payload re-encoded from its decoded value,
+    which is the staged bytes for a payload in canonical form -/
+def redeemersBytes (rs : List BuiltRedeemer) : List UInt8 :=
+  (Cbor.minHead 4 rs.length).encode ++
+  rs.flatMap (fun r =>
+    (Cbor.minHead 4 4).encode ++ (Cbor.mkUInt r.tag).encode ++ (Cbor.mkUInt r.index).encode ++ toU8 r.data ++
+    (Cbor.minHead 4 2).encode ++ (Cbor.mkUInt r.mem).encode ++ (Cbor.mkUInt r.steps).encode)
+
+/-- `KeepRaw::from(NonEmptySet::from_vec(datums))`: tag 258 and a definite array of the datums -/
+def datumSetBytes (ds : List Bytes) : List UInt8 :=
+  (Cbor.minHead 6 258).encode ++ (Cbor.minHead 4 ds.length).encode ++ ds.flatMap toU8
+
+/-- the `script_data_hash` of the built body: only with language views, and then
+    `ScriptData::build_for` on the witness set that is emitted (field 5 iff there are redeemers,
+    field 4 iff there are datums; none of the two: no hash; views count only with redeemers).
+    Redeemers and datums are hashed in the order they were written, which for more than one of
+    either is the `HashMap` iteration order of that run. -/
+def scriptDataHashOf (redeemers : List BuiltRedeemer) (datums : List Bytes)
+    (views : Option (List (Nat × List Int))) : Option Bytes :=
+  match views with
+  | none => none
+  | some lv =>
+    (ScriptData.buildFor (if redeemers.isEmpty then none else some (redeemersBytes redeemers))
+        (if datums.isEmpty then none else some (datumSetBytes datums))
+        (some (ScriptData.fromList lv))).map (fun sd => (ScriptData.hashOf sd).map (·.toNat))
 
 /-- `if !plutus_data.is_empty() { Some(KeepRaw::from(NonEmptySet::from_vec(..).unwrap())) } else { None }` -/
 def witnessDatums (datums : List Bytes) : Res (List Bytes) :=
@@ -418,7 +454,7 @@ def build (s : Staging) : Res BuiltTx :=
     networkId := s.networkId
     collateralReturn
     refInputs := s.refInputs
-    scriptDataHash := s.langViews.isSome
+    scriptDataHash := scriptDataHashOf redeemers datums s.langViews
     auxDataHash := s.aux.isSome
     scripts := s.scripts.map (fun (e : Nat × Script) => (e.2.kind, e.2.body.bytes))
     datums
